@@ -541,12 +541,12 @@ Qed.
 Definition witness_df : list note := [mkN 0 0 THit; mkN 1 0 THit; mkN 0 1 THit].
 Definition witness_cf : nfilter := mkNF 2 [[2; 2]] 4 false.
 
-Theorem combos_exact_refuted :
+Theorem combos_old_exact_refuted :
   exists df v h aj gs size cf out,
     StronglySorted by_off df /\ group df v h aj = Some gs /\
     wf_combos gs size (Some cf) None None = true /\
     chord_create (In2 2 [[2; 2]]) 4 0 false = Some cf /\
-    combinations gs size false (Some cf) None None = Some out /\
+    combinations_old gs size false (Some cf) None None = Some out /\
     ~ combos_spec gs size false (Some cf) None None out.
 Proof.
   exists witness_df, 0, None, true, [[mkN 0 0 THit; mkN 1 0 THit]; [mkN 0 1 THit]], 2%nat, witness_cf,
@@ -560,9 +560,9 @@ Proof.
 Qed.
 
 (* the same defect through the chord-stream template: primary 2, secondary 2 passes the chunk of sizes (2, 1) *)
-Theorem chord_stream_refuted :
+Theorem chord_stream_old_refuted :
   exists gs out,
-    template_chord_stream gs 2 2 4 false true = Some out /\ ~ chord_stream_spec gs 2 2 4 false true out.
+    template_chord_stream_old gs 2 2 4 false true = Some out /\ ~ chord_stream_spec gs 2 2 4 false true out.
 Proof.
   exists [[mkN 0 0 THit; mkN 1 0 THit]; [mkN 0 1 THit]],
          [[[mkN 0 0 THit; mkN 0 1 THit]; [mkN 1 0 THit; mkN 0 1 THit]]].
@@ -873,7 +873,7 @@ Qed.
 (* ================================================================ what combinations() computes *)
 Definition sizes_of (chunk : list (list note)) : list Z := map (fun g => Z.of_nat (length g)) chunk.
 
-(* the chord test of the code as it is: some position where a filter row equals the chunk's sizes *)
+(* the OLD element-wise chord test: some position where a filter row equals the chunk's sizes *)
 Definition chord_passes (cf : option nfilter) (chunk : list (list note)) : bool :=
   match cf with
   | None => true
@@ -1008,17 +1008,17 @@ Qed.
 Lemma sizes_of_length chunk : length (sizes_of chunk) = length chunk.
 Proof. unfold sizes_of. apply map_length. Qed.
 
-(* the code as it is *)
-Theorem combos_char groups size ms2 cf kf tf :
+(* the OLD variant: what the element-wise chord test let through *)
+Theorem combos_old_char groups size ms2 cf kf tf :
   wf_combos groups size cf kf tf = true ->
-  exists out, combinations groups size ms2 cf kf tf = Some out /\
+  exists out, combinations_old groups size ms2 cf kf tf = Some out /\
               Permutation (concat out) (reported ms2 (passed_seqs (chord_passes cf) groups size kf tf)).
 Proof.
-  intros Hwf. apply combos_with_char; auto.
+  intros Hwf. unfold combinations_old. apply combos_with_char; auto.
   intros chunk Hc. destruct cf as [f|]; [|reflexivity].
   destruct (wf_combos_parts _ _ _ _ _ Hwf) as [_ [Hcf _]].
   destruct (wf_nfilter_w_parts _ _ Hcf) as [Hw Hrl].
-  unfold chord_filter. rewrite sizes_of_length, (windows_length _ _ _ Hc), Hw, bcast_ok_refl.
+  unfold chord_filter_old_any. rewrite sizes_of_length, (windows_length _ _ _ Hc), Hw, bcast_ok_refl.
   cbn [chord_passes]. f_equal. f_equal. apply existsb_ext_in'. intros row Hrow.
   rewrite bcast_row_id; auto.
 Qed.
@@ -1028,12 +1028,12 @@ Qed.
 Definition chord_guard (cf : option nfilter) (size : nat) (groups : list (list note)) : bool :=
   forallb (fun chunk => Bool.eqb (chord_passes cf chunk) (chord_allowed cf chunk)) (windows size groups).
 
-Theorem combos_exact_guarded groups size ms2 cf kf tf :
+Theorem combos_old_exact_guarded groups size ms2 cf kf tf :
   wf_combos groups size cf kf tf = true -> chord_guard cf size groups = true ->
-  exists out, combinations groups size ms2 cf kf tf = Some out /\
+  exists out, combinations_old groups size ms2 cf kf tf = Some out /\
               combos_spec groups size ms2 cf kf tf out.
 Proof.
-  intros Hwf Hg. destruct (combos_char groups size ms2 cf kf tf Hwf) as [out [H1 H2]].
+  intros Hwf Hg. destruct (combos_old_char groups size ms2 cf kf tf Hwf) as [out [H1 H2]].
   exists out. split; auto. unfold combos_spec. rewrite allowed_is_passed.
   replace (passed_seqs (chord_allowed cf) groups size kf tf)
     with (passed_seqs (chord_passes cf) groups size kf tf); auto.
@@ -1042,27 +1042,18 @@ Proof.
   apply eqb_prop in Hg. rewrite Hg. reflexivity.
 Qed.
 
-(* without a chord-size filter the combinations are exactly the allowed ones *)
-Theorem combos_exact_no_chord_filter groups size ms2 kf tf :
-  wf_combos groups size None kf tf = true ->
-  exists out, combinations groups size ms2 None kf tf = Some out /\
-              combos_spec groups size ms2 None kf tf out.
-Proof.
-  intros Hwf. apply combos_exact_guarded; auto.
-  unfold chord_guard. apply forallb_forall. intros; reflexivity.
-Qed.
-
-(* with the repaired chord test (row membership) the property holds for every filter *)
-Theorem combos_exact_repaired groups size ms2 cf kf tf :
+(* THE property: inside the domain combinations() succeeds and reports exactly the allowed sequences, for
+   every chord-size, column and type filter *)
+Theorem combos_exact groups size ms2 cf kf tf :
   wf_combos groups size cf kf tf = true ->
-  exists out, combinations_with chord_filter_rows groups size ms2 cf kf tf = Some out /\
+  exists out, combinations groups size ms2 cf kf tf = Some out /\
               combos_spec groups size ms2 cf kf tf out.
 Proof.
-  intros Hwf. unfold combos_spec. rewrite allowed_is_passed. apply combos_with_char; auto.
+  intros Hwf. unfold combos_spec, combinations. rewrite allowed_is_passed. apply combos_with_char; auto.
   intros chunk Hc. destruct cf as [f|]; [|reflexivity].
   destruct (wf_combos_parts _ _ _ _ _ Hwf) as [_ [Hcf _]].
   destruct (wf_nfilter_w_parts _ _ Hcf) as [Hw Hrl].
-  unfold chord_filter_rows. rewrite sizes_of_length, (windows_length _ _ _ Hc), Hw, bcast_ok_refl.
+  unfold chord_filter. rewrite sizes_of_length, (windows_length _ _ _ Hc), Hw, bcast_ok_refl.
   cbn [chord_allowed]. f_equal. f_equal. apply existsb_ext_in'. intros row Hrow.
   rewrite bcast_row_id; auto. apply bool_eq_iff.
   rewrite (list_eqb_eq Z.eqb Z.eqb_eq), forall2b_eqb_eq. unfold sizes_of. split; congruence.
